@@ -92,9 +92,18 @@ def worker(job):
             if ob.kind == "raises" and not (c.get("_raises", False) or c.get("raises") is not None):
                 continue
             d = dict(name=ob.name, kind=ob.kind, status=ob.status, seconds=round(ob.seconds, 3), backend=ob.backend, line=ob.line, note=(ob.note or "")[:300])
-            if ob.status == "refuted" and ob.kind != "cover":
+            if ob.status in ("refuted", "unknown") and ob.kind not in ("cover", "loop-step"):
                 try:
-                    d["replay"] = make_replay(ob, rep, c, qualname, schema)
+                    rp = make_replay(ob, rep, c, qualname, schema) if ob.status == "refuted" else dict(verdict="no-model", detail="solver returned unknown")
+                    if rp.get("verdict") != "violates":
+                        fz = fuzz_search(ob, c, qualname, schema, n=FUZZ[tier])
+                        if fz is not None:
+                            rp = fz
+                    d["replay"] = rp
+                    if ob.status == "unknown" and rp.get("verdict") == "violates":
+                        d["status"] = "refuted"
+                        d["note"] = (d.get("note") or "") + " [solver undecided; counterexample found by the bounded search around a model of the precondition]"
+                        d["backend"] = "bounded-search"
                 except Exception as e:
                     d["replay"] = dict(verdict="error", detail="%s: %s" % (type(e).__name__, e), trace=traceback.format_exc()[-800:])
             out["obligations"].append(d)
@@ -118,6 +127,91 @@ def make_replay(ob, rep, c, qualname, schema):
     res["prestate"] = desc
     res["model_excerpt"] = str(ob.model)[:1500]
     return replay.jsonable(res)
+
+
+FUZZ = {"quick": 150, "thorough": 1500}
+
+
+def _perturb(desc, rng):
+    import copy
+
+    d = copy.deepcopy(desc)
+
+    def num(x):
+        if isinstance(x, bool) or not isinstance(x, (int, float)):
+            return x
+        if isinstance(x, int):
+            return x
+        r = rng.random()
+        if r < 0.25:
+            return x
+        if r < 0.45:
+            return 0.0
+        if r < 0.7:
+            return abs(x) * rng.uniform(0, 3) if x else rng.uniform(0, 3)
+        if r < 0.85:
+            return float(rng.randint(0, 5))
+        return rng.uniform(0, 2)
+
+    def walk(v):
+        if isinstance(v, dict):
+            if "arr1" in v:
+                v["arr1"] = [num(float(x) if x is not None else 0.0) for x in v["arr1"]]
+            elif "arr2" in v:
+                v["arr2"] = [[num(float(x) if x is not None else 0.0) for x in row] for row in v["arr2"]]
+            elif "ref" in v or "list" in v:
+                pass
+            else:
+                for k in list(v):
+                    v[k] = walk(v[k])
+            return v
+        return num(v)
+
+    for o in d["objects"].values():
+        for f in list(o["fields"]):
+            o["fields"][f] = walk(o["fields"][f])
+    for k in list(d["args"]):
+        if isinstance(d["args"][k], float):
+            d["args"][k] = num(d["args"][k])
+    return d
+
+
+def fuzz_search(ob, c, qualname, schema, n=150):
+    """bounded search for a failing input on the real code around models of the precondition (refutation only)"""
+    import random
+    from pyvc import replay, verify
+
+    if not hasattr(ob, "replay_ctx") or ob.replay_ctx is None or not hasattr(ob, "entry"):
+        return None
+    fi, env, mro_fn = ob.replay_ctx
+    rng = random.Random(int(os.environ.get("VERIF_SEED", "0") or 0) + 17)
+    bases = []
+    if ob.model is not None:
+        try:
+            bases.append(replay.extract_state(ob.model, None, fi, env.get("self"), env, schema, mro_fn))
+        except Exception:
+            pass
+    for sd in range(6):
+        m = verify.entry_model(ob, max_len=2 + sd % 3, seed=sd + 31 * int(os.environ.get("VERIF_SEED", "0") or 0))
+        if m is not None:
+            try:
+                bases.append(replay.extract_state(m, None, fi, env.get("self"), env, schema, mro_fn))
+            except Exception:
+                pass
+    clause = ob.name.split("/")[0] if ob.kind == "post" else None
+    tried = ok = 0
+    for b in bases:
+        for i in range(max(1, n // max(1, len(bases)))):
+            d = b if i == 0 else _perturb(b, rng)
+            res = replay.run_replay(d, c, clause)
+            tried += 1
+            if res.get("verdict") == "holds":
+                ok += 1
+            if res.get("verdict") == "violates":
+                res["prestate"] = d
+                res["found_by"] = "bounded search: %d inputs tried around %d models of the precondition" % (tried, len(bases))
+                return replay.jsonable(res)
+    return dict(verdict="not-found", detail="bounded search: %d inputs tried (%d satisfied the precondition and the clause), none fails" % (tried, ok))
 
 
 def finding_matches(f, pid, fn, ob):
